@@ -87,7 +87,7 @@ def main() -> int:
         ok = ok and not r.violated
     # ---- non-vacuity of the rule transcription: the rules of the pinned commit must be refuted by the evaluator
     base = (spec / "MC_ExprRewrite.cfg").read_text()
-    for vc, vi, depth in (("repaired", "pinned", 1), ("pinned", "repaired", 2)):
+    for vc, vi, depth in (("repaired", "pinned", 1), ("pinned", "repaired", 2), ("repaired", "tree", 1)):
         d = scratch("exprbug")
         shutil.copy(spec / "MC_ExprRewrite.tla", d / "MC_ExprRewrite.tla")
         (d / "MC_ExprRewrite.cfg").write_text(base.replace('VariantCombine = "repaired"', f'VariantCombine = "{vc}"').replace('VariantInvert = "repaired"', f'VariantInvert = "{vi}"').replace("Depth = 2", f"Depth = {depth}"))
